@@ -172,7 +172,7 @@ def sx_join(sep, it):
     """`sep.join(it)` where the items may be symbolic byte / bit strings (the C implementation only takes real ones)"""
     if _real_isinstance(sep, (bytes, bytearray, str)):
         items = list(it)
-        if any(_real_isinstance(x, (C.SymBytes, C.SymBitStr, C.AsciiText)) for x in items):
+        if any(_real_isinstance(x, (C.SymBytes, C.SymBitStr, C.AsciiText, C.UniText)) for x in items):
             out = None
             for i, x in enumerate(items):
                 if i and len(sep):
@@ -449,7 +449,7 @@ def sx_isinstance(o, t):
     if _real_isinstance(o, C.SymBool):
         ts = t if _real_isinstance(t, tuple) else (t,)
         return bool in ts or int in ts or SxInt in ts
-    if _real_isinstance(o, (C.SymBitStr, Rope, C.AsciiText, C.HexText)):
+    if _real_isinstance(o, (C.SymBitStr, Rope, C.AsciiText, C.HexText, C.UniText)):
         ts = t if _real_isinstance(t, tuple) else (t,)
         return str in ts
     return _real_isinstance(o, t)
